@@ -23,7 +23,7 @@ EXTENDS PgOps
 VARIABLES
     cfg,      \* configuration of this execution
     phase,    \* "startup" "auth" "postauth" "mw" "ready" "closed"
-    ssl,      \* "none" | "refused" | "tls": state of the SSL negotiation
+    ssl,      \* "none" | "refused" | "tlsp" (handshake pending) | "tls": SSL negotiation
     mwi,      \* index of the next session middleware to run
     cparams,  \* client parameters (function key -> value)
     inq,      \* client messages sent and not yet consumed by the server
@@ -84,7 +84,7 @@ Consume == inq' = Tail(inq)
 Closed == phase' = "closed"
 
 \* the server is about to read the next message of the given phase
-Reading(p) == phase = p /\ ~faulted /\ inq # <<>> /\ ~h.on /\ hq = <<>>
+Reading(p) == phase = p /\ ~faulted /\ inq # <<>> /\ ~h.on /\ hq = <<>> /\ ssl # "tlsp"
 
 KvMap(kvs) == [key \in {kvs[i].k : i \in DOMAIN kvs} |->
                   kvs[MaxOf({i \in DOMAIN kvs : kvs[i].k = key})].v]
@@ -140,13 +140,34 @@ DoSSLRequest ==
     /\ Consume
     /\ \/ /\ ssl = "none" /\ cfg.tls \in {"nil", "empty"}
           /\ emit' = <<Rv(MsgSSL("N"))>> /\ ssl' = "refused" /\ UNCHANGED phase
-       \/ /\ ssl = "none" /\ cfg.tls = "cert"
-          /\ emit' = <<Rv(MsgSSL("S"))>> /\ ssl' = "tls" /\ UNCHANGED phase
+       \/ \* certificates configured: the single byte 'S'; from here on every byte
+          \* travels inside the TLS session (ssl = "tlsp" until the handshake is done)
+          /\ ssl = "none" /\ cfg.tls = "cert"
+          /\ emit' = <<Rv(MsgSSL("S"))>> /\ ssl' = "tlsp" /\ UNCHANGED phase
        \/ \* E13: a second SSLRequest: refused again, or the connection ends
           /\ ssl # "none"
           /\ \/ emit' = <<Rv(MsgSSL("N"))>> /\ UNCHANGED <<ssl, phase>>
              \/ emit' = <<CloseEv>> /\ Closed /\ UNCHANGED ssl
     /\ UNCHANGED <<cfg, mwi, cparams, eof, faulted, stmts, portals, skip, hq, h>>
+
+\* The TLS handshake completes (environment: the client's TLS stack reports it).
+TLSDone ==
+    /\ ssl = "tlsp" /\ phase = "startup"
+    /\ ssl' = "tls" /\ emit' = <<>>
+    /\ UNCHANGED <<cfg, phase, mwi, cparams, inq, eof, faulted, stmts, portals, skip, hq, h>>
+
+\* E12: plaintext pushed ahead of the handshake is never interpreted: it is
+\* dropped (it sat in the plaintext read buffer) ...
+DoStuffedDrop ==
+    /\ ssl = "tlsp" /\ phase = "startup" /\ ~faulted /\ inq # <<>> /\ Head1.t = "Stuffed"
+    /\ Consume /\ emit' = <<>>
+    /\ UNCHANGED <<cfg, phase, ssl, mwi, cparams, eof, faulted, stmts, portals, skip, hq, h>>
+
+\* ... or it wrecks the handshake and the connection ends
+TLSAbort ==
+    /\ ssl = "tlsp" /\ phase = "startup" /\ ~faulted /\ inq # <<>> /\ Head1.t = "Stuffed"
+    /\ Consume /\ emit' = <<CloseEv>> /\ Closed
+    /\ UNCHANGED <<cfg, ssl, mwi, cparams, eof, faulted, stmts, portals, skip, hq, h>>
 
 \* A CancelRequest, before or after an SSL negotiation: closed, no reply.
 DoCancel ==
@@ -566,7 +587,7 @@ ApiErrorCode(isnil, e) ==
 
 ---------------------------------------------------------------------------
 
-Preamble == DoStartup \/ DoSSLRequest \/ DoCancel \/ DoStartupReject
+Preamble == DoStartup \/ DoSSLRequest \/ DoStuffedDrop \/ TLSAbort \/ DoCancel \/ DoStartupReject
             \/ DoPassword \/ DoNotPassword
             \/ WriteServerParams \/ Middleware \/ FirstReady
 
@@ -584,7 +605,7 @@ ServerStep == Preamble \/ Command \/ Handler \/ ServerEOF
 
 TypeOK ==
     /\ phase \in {"startup", "auth", "postauth", "mw", "ready", "slurp", "closed"}
-    /\ ssl \in {"none", "refused", "tls"}
+    /\ ssl \in {"none", "refused", "tlsp", "tls"}
     /\ skip \in BOOLEAN /\ eof \in BOOLEAN /\ faulted \in BOOLEAN
     /\ h.on \in BOOLEAN
 
